@@ -20,7 +20,7 @@ func queryCorpus(extra []string) []string {
 		seen[q] = true
 		out = append(out, q)
 	}
-	for _, p := range []string{"/repo/compiler/parser/valid.zed", "/repo/compiler/parser/invalid.zed"} {
+	for _, p := range []string{repoRoot() + "/compiler/parser/valid.zed", repoRoot() + "/compiler/parser/invalid.zed"} {
 		if b, err := os.ReadFile(p); err == nil {
 			for _, l := range strings.Split(string(b), "\n") {
 				add(l)
